@@ -354,6 +354,32 @@ def search(ctx, boost=False):
             s.nontrivial.add((a, b, wrap[0]))
         if msg:
             s.violations.append(dict(what=msg, case=dict(kind="pair", a=a, b=b, wrap=list(wrap))))
+    # extern "C" blocks are transparent wherever they stand: namespace n { extern "C" { D } } == namespace n { D }
+    frames = [("%s", "root"), ("namespace n {\n%s\n}\n", "ns"), ("namespace a::b {\nint pre;\n%s\nint post;\n}\n", "nested"),
+              ("namespace n { namespace m {\n%s\n} }\nnamespace n {\nint later;\n}\n", "reopened")]
+    for i in range(ctx.scale(200, 5000)):
+        d = rng.choice(gen if rng.random() < 0.7 else corpus)
+        if "extern" in d or "#" in d:
+            continue
+        frame, fname = frames[i % len(frames)]
+        s.evaluations += 1
+        s.count("extern-transparent")
+        try:
+            plain = parse_string(frame % d)
+        except Exception:
+            continue
+        s.nontrivial.add((d, "extern", fname))
+        for linkage in ('extern "C" {\n%s\n}', 'extern "C++" {\nextern "C" {\n%s\n}\n}'):
+            try:
+                wrapped = parse_string(frame % (linkage % d))
+            except Exception as e:
+                s.violations.append(dict(what="wrapping the declarations in a linkage block makes the input fail: %s" % str(e)[:100],
+                                         case=dict(kind="extern", frame=frame, decls=d, linkage=linkage)))
+                break
+            if wrapped != plain:
+                s.violations.append(dict(what="declarations inside a linkage block (%s context) are not reported where the same declarations "
+                                              "without the block are" % fname, case=dict(kind="extern", frame=frame, decls=d, linkage=linkage)))
+                break
     # class bodies
     for i in range(ctx.scale(150, 4000)):
         a, b = class_members(rng, rng.choice([2, 5, 10])), class_members(rng, rng.choice([2, 5, 10]))
@@ -389,7 +415,18 @@ def check_class_pair(a, b, wrap):
     return None
 
 
+def replay_extern(case):
+    try:
+        plain = parse_string(case["frame"] % case["decls"])
+        wrapped = parse_string(case["frame"] % (case["linkage"] % case["decls"]))
+    except Exception as e:
+        return ["raised: %s" % str(e)[:100]]
+    return [] if plain == wrapped else ["declarations inside a linkage block are reported elsewhere than without the block"]
+
+
 def replay(ctx, case):
+    if case.get("kind") == "extern":
+        return replay_extern(case)
     if case.get("kind") == "pair":
         m, _ = check_pair(case["a"], case["b"], tuple(case["wrap"]))
     elif case.get("kind") == "classpair":
